@@ -42,7 +42,12 @@ class JobInformation:
 
         import asyncio
 
-        process = self.getprocess()
+        try:
+            process = self.getprocess()
+        except json.JSONDecodeError:
+            # The pid file is being written (the scheduler starts the process
+            # first) or was left unfinished: the process might be there
+            return True
         return process is not None and asyncio.run(process.aio_isrunning())
 
     def getprocess(self):
